@@ -38,6 +38,27 @@ Proof.
   - now rewrite fupd_same.
 Qed.
 
+(* the failing step AS IT OCCURS IN RUNS (audit 3, L2): begin_call creates the frame ANew .. W1 and the same step consumes it, so between
+   two steps the thread is idle with ONew as its next operation.  Everything but the thread's own program / history -- and the ghost
+   `broken`, which records a client-contract violation of the CALL, not of the allocation -- is unchanged. *)
+Lemma real_fail_frame w t par dl r :
+  stack (get w t) = [] -> prog (get w t) = ONew par dl :: r ->
+  (match par with Some p => (p < nnext w)%nat | None => True end) ->
+  let w' := fst (step w t true) in
+  snd (step w t true) = EvMalloc None /\ notes w' = notes w /\ nnext w' = nnext w /\ clock w' = clock w /\ nthr w' = nthr w /\
+  (forall u, u <> t -> thr w' u = thr w u) /\ freed (gh w') = freed (gh w) /\ notify_called (gh w') = notify_called (gh w) /\
+  seen (gh w') = seen (gh w) /\ obs (gh w') = obs (gh w) /\ crashed (gh w') = crashed (gh w) /\
+  hist (get w' t) = (ONew par dl, RNote None) :: hist (get w t) /\ prog (get w' t) = r /\ stack (get w' t) = [] /\
+  sem (get w' t) = sem (get w t) /\ tw (get w' t) = tw (get w t).
+Proof.
+  intros Hs Hp Hlt. unfold step, begin_call. rewrite Hs, Hp. destruct par as [p|]; cbn [op_note].
+  - apply Nat.ltb_lt in Hlt. rewrite Hlt. destruct (contract_ok w t (ONew (Some p) dl)); cbn;
+    unfold fupd; rewrite Nat.eqb_refl; cbn; unfold fupd; rewrite Nat.eqb_refl; cbn; repeat split; auto;
+    intros u Hu; destruct (Nat.eqb_spec u t); congruence.
+  - cbn. unfold fupd; rewrite Nat.eqb_refl; cbn; unfold fupd; rewrite Nat.eqb_refl; cbn; repeat split; auto;
+    intros u Hu; destruct (Nat.eqb_spec u t); congruence.
+Qed.
+
 (* the model's footprint of that step is empty (the lock-step replay checks footprints against the notes the code touches) *)
 Lemma new_fail_touches w t par dl rest : stack (get w t) = ANew par dl W1 :: rest -> touches w t = [].
 Proof. intros H. unfold touches. rewrite (begin_call_busy w t _ _ H), H. reflexivity. Qed.
